@@ -55,8 +55,12 @@ def c06(tier, replay=None):
         corpus = expr_corpus(chk, SMALL_T if T else SMALL_Q + [3], WIDE_T if T else WIDE_Q)
         recs = []
         for (mode, wd), rs in corpus.items():
-            d1 = [x for x in rs if is_depth1(x)]
-            d2 = [x for x in rs if not is_depth1(x)]
+            # always: depth-1 shapes and every shape with a nested array operator (few); other depth-2 shapes are sampled
+            def has_arr(x):
+                return any(n["op"] in ("arrite", "store", "arreq", "arrconst") for n in x["nodes"])
+            full_arr = mode == "small" and (T or wd == 1)
+            d1 = [x for x in rs if is_depth1(x) or (full_arr and has_arr(x))]
+            d2 = [x for x in rs if not (is_depth1(x) or (full_arr and has_arr(x)))]
             recs += d1 if (T or mode == "small") else pv.subsample(d1, 2500, pv.seed() + wd)
             recs += pv.subsample(d2, (6000 if T else 700) if mode == "small" else (2500 if T else 300), pv.seed() + wd)
         pv.write_ndjson(chk.work / "in.ndjson", recs)
